@@ -298,8 +298,15 @@ pub fn denote(filter: &str) -> (Vec<String>, bool) {
     let Some((addr, range)) = filter.split_once(' ') else { return (vec![], true) };
     let Some((v6, a, l)) = parse_prefix(addr) else { return (vec![], true) };
     let parse_len = |s: &str| s.trim_start_matches('/').parse::<u8>().ok();
-    let Some((lo, hi)) = range.split_once('-').and_then(|(x, y)| Some((parse_len(x)?, parse_len(y)?))) else { return (vec![], true) };
     let bits: u8 = if v6 { 128 } else { 32 };
+    // route-filter match types: prefix-length-range "/lo-/hi", "exact", "orlonger", "upto /n"
+    let span = match range {
+        "exact" => Some((l, l)),
+        "orlonger" => Some((l, bits)),
+        r if r.starts_with("upto ") => parse_len(&r[5..]).map(|n| (l, n)),
+        r => r.split_once('-').and_then(|(x, y)| Some((parse_len(x)?, parse_len(y)?))),
+    };
+    let Some((lo, hi)) = span else { return (vec![], true) };
     let (root, rl, maxl) = if v6 { (U6_ROOT.0, U6_ROOT.1, U6_MAXLEN) } else { (U4_ROOT.0 as u128, U4_ROOT.1, U4_MAXLEN) };
     if l > bits || lo > hi || hi > bits || lo < l {
         return (vec![], true);
@@ -802,9 +809,15 @@ pub fn render_eph(eph: &Eph) -> String {
                         s.push_str(&format!("<family>{f}</family>"));
                     }
                     for (a, r) in &t.filters {
-                        s.push_str(&format!(
-                            "<route-filter><address>{a}</address><choice-ident>prefix-length-range</choice-ident><choice-value>{r}</choice-value></route-filter>"
-                        ));
+                        match r.as_str() {
+                            "exact" | "orlonger" => s.push_str(&format!("<route-filter><address>{a}</address><choice-ident>{r}</choice-ident></route-filter>")),
+                            u if u.starts_with("upto ") => s.push_str(&format!(
+                                "<route-filter><address>{a}</address><choice-ident>upto</choice-ident><choice-value>{}</choice-value></route-filter>", &u[5..]
+                            )),
+                            _ => s.push_str(&format!(
+                                "<route-filter><address>{a}</address><choice-ident>prefix-length-range</choice-ident><choice-value>{r}</choice-value></route-filter>"
+                            )),
+                        }
                     }
                     s.push_str("</from>");
                 }
@@ -1296,6 +1309,8 @@ async fn serve_session(
             }
             "malformed" => vec![format!("<rpc-reply message-id=\"{id}\" xmlns=\"{BASE_NS}\"><ok></rpc-reply>{EOM}")],
             "no-ok" => vec![format!("<rpc-reply message-id=\"{id}\" xmlns=\"{BASE_NS}\"></rpc-reply>{EOM}")],
+            // the negative answer to a commit in Junos' own shape: the error sits inside <routing-engine>
+            "junos-error" => vec![format!("<rpc-reply message-id=\"{id}\" xmlns=\"{BASE_NS}\"><commit-results><routing-engine><name>re0</name>{RPC_ERROR}</routing-engine></commit-results></rpc-reply>{EOM}")],
             "wrong-id" => vec![ok_reply.replacen(&format!("message-id=\"{id}\""), "message-id=\"9999\"", 1)],
             "close-before" => {
                 log(&st, json!({"ev": "srv_close", "when": "before-reply", "kind": kind}));
